@@ -27,7 +27,8 @@ def err(e):
 
 
 def chars(s):
-    return [ord(ch) for ch in s]
+    """Code points of a string; anything else (a value in the wrong place) is shown through its repr."""
+    return [ord(ch) for ch in (s if isinstance(s, str) else "<%r>" % (s,))]
 
 
 def chip_info(ci):
@@ -37,7 +38,8 @@ def chip_info(ci):
     return [int(ci.num_cores), [int(s) for s in ci.core_states], sorted(int(l) for l in ci.working_links),
             int(ci.largest_free_sdram_block), int(ci.largest_free_sram_block),
             int(ci.largest_free_rtr_mc_block), 1 if ci.ethernet_up else 0, chars(ci.ip_address),
-            int(ci.local_ethernet_chip[0]), int(ci.local_ethernet_chip[1]), ok]
+            int(ci.local_ethernet_chip[0]) if isinstance(ci.local_ethernet_chip, tuple) else -1,
+            int(ci.local_ethernet_chip[1]) if isinstance(ci.local_ethernet_chip, tuple) else -1, ok]
 
 
 def machine_out(m, order):
@@ -49,6 +51,81 @@ def machine_out(m, order):
                 dead_chips=sorted([x, y] for x, y in m.dead_chips),
                 dead_links=[[x, y, int(l)] for x, y, l in sorted(m.dead_links, key=key3)],
                 links_typed=all(isinstance(l, Links) for _, _, l in m.dead_links))
+
+
+def describe(si, c):
+    """Everything that is derived from a SystemInfo without talking to the machine: the description, its views, the
+    place-and-route machine, the reservations, the table lengths."""
+    out = {}
+    order = {chip: i for i, chip in enumerate(si)}
+    out["sysinfo"] = ["ok", si.width, si.height, [[x, y] + chip_info(ci) for (x, y), ci in si.items()]]
+    key3 = lambda t: (order.get((t[0], t[1]), 1 << 30), t[0], t[1], int(t[2]))
+    out["si_chips"] = [list(xy) for xy in si.chips()]
+    out["si_dead_chips"] = [list(xy) for xy in si.dead_chips()]
+    out["si_links"] = [[x, y, int(l)] for x, y, l in sorted(si.links(), key=key3)]
+    out["si_dead_links"] = [[x, y, int(l)] for x, y, l in sorted(si.dead_links(), key=key3)]
+    out["si_cores"] = [[x, y, p, int(s)] for x, y, p, s in si.cores()]
+    out["si_eth"] = [[xy[0], xy[1], chars(ip)] for xy, ip in si.ethernet_connected_chips()]
+    q = []
+    for x, y, p, l, s in c.get("contains_queries", []):
+        row = []
+        for item in ((x, y), (x, y, p), (x, y, Links(l)), (x, y, p, consts.AppState(s))):
+            try:
+                row.append(1 if item in si else 0)
+            except Exception:
+                row.append(2)
+        q.append(row)
+    out["si_contains"] = q
+    # ---- the place-and-route machine, reservations, table lengths
+    try:
+        m = build_machine(si)
+        out["machine"] = machine_out(m, order)
+        qs = []
+        for x, y in c["mq"]:
+            inn = (x, y) in m
+            r = m[(x, y)] if inn else None
+            qs.append([x, y, 1 if inn else 0,
+                       None if r is None else [r[Cores], r[SDRAM], r[SRAM]],
+                       sum(1 << int(l) for l in Links if (x, y, l) in m)])
+        out["machine_queries"] = qs
+        out["machine_iter"] = [list(xy) for xy in m]
+    except Exception as e:
+        out["machine"] = err(e)
+    try:
+        cs = build_core_constraints(si)
+        out["constraints"] = [[k.reservation.start, k.reservation.stop,
+                               None if k.location is None else list(k.location),
+                               isinstance(k, ReserveResourceConstraint) and k.resource is Cores
+                               and k.reservation.step is None] for k in cs]
+    except Exception as e:
+        out["constraints"] = err(e)
+    try:
+        out["target_lengths"] = [[x, y, n] for (x, y), n in build_routing_table_target_lengths(si).items()]
+    except Exception as e:
+        out["target_lengths"] = err(e)
+    return out, order
+
+
+def copied(si, how):
+    """The description after a trip through the standard copying protocols, or rebuilt positionally as the
+    documented constructors allow."""
+    import copy
+    import pickle
+    if how == "copy":
+        return copy.copy(si)
+    if how == "deepcopy":
+        return copy.deepcopy(si)
+    if how == "pickle":
+        return pickle.loads(pickle.dumps(si, pickle.HIGHEST_PROTOCOL))
+    if how == "pickle0":
+        return pickle.loads(pickle.dumps(si, 0))
+    if how == "items-deepcopy":
+        return SystemInfo(si.width, si.height, [(xy, copy.deepcopy(ci)) for xy, ci in si.items()])
+    if how == "positional":
+        return SystemInfo(si.width, si.height, [(xy, ChipInfo(*tuple(ci))) for xy, ci in si.items()])
+    if how == "replace":
+        return SystemInfo(si.width, si.height, [(xy, ci._replace(num_cores=ci.num_cores)) for xy, ci in si.items()])
+    raise ValueError(how)
 
 
 def structs_for(layout):
@@ -111,52 +188,13 @@ def probe(mc, net, c):
         out["sysinfo"] = err(e)
         out["datagrams"] = net.nsent
         return out
-    order = {chip: i for i, chip in enumerate(si)}
-    out["sysinfo"] = ["ok", si.width, si.height, [[x, y] + chip_info(ci) for (x, y), ci in si.items()]]
-    key3 = lambda t: (order.get((t[0], t[1]), 1 << 30), t[0], t[1], int(t[2]))
-    out["si_chips"] = [list(xy) for xy in si.chips()]
-    out["si_dead_chips"] = [list(xy) for xy in si.dead_chips()]
-    out["si_links"] = [[x, y, int(l)] for x, y, l in sorted(si.links(), key=key3)]
-    out["si_dead_links"] = [[x, y, int(l)] for x, y, l in sorted(si.dead_links(), key=key3)]
-    out["si_cores"] = [[x, y, p, int(s)] for x, y, p, s in si.cores()]
-    out["si_eth"] = [[xy[0], xy[1], chars(ip)] for xy, ip in si.ethernet_connected_chips()]
-    q = []
-    for x, y, p, l, s in c.get("contains_queries", []):
-        row = []
-        for item in ((x, y), (x, y, p), (x, y, Links(l)), (x, y, p, consts.AppState(s))):
-            try:
-                row.append(1 if item in si else 0)
-            except Exception:
-                row.append(2)
-        q.append(row)
-    out["si_contains"] = q
-    # ---- the place-and-route machine, reservations, table lengths
-    try:
-        m = build_machine(si)
-        out["machine"] = machine_out(m, order)
-        qs = []
-        for x, y in c["mq"]:
-            inn = (x, y) in m
-            r = m[(x, y)] if inn else None
-            qs.append([x, y, 1 if inn else 0,
-                       None if r is None else [r[Cores], r[SDRAM], r[SRAM]],
-                       sum(1 << int(l) for l in Links if (x, y, l) in m)])
-        out["machine_queries"] = qs
-        out["machine_iter"] = [list(xy) for xy in m]
-    except Exception as e:
-        out["machine"] = err(e)
-    try:
-        cs = build_core_constraints(si)
-        out["constraints"] = [[k.reservation.start, k.reservation.stop,
-                               None if k.location is None else list(k.location),
-                               isinstance(k, ReserveResourceConstraint) and k.resource is Cores
-                               and k.reservation.step is None] for k in cs]
-    except Exception as e:
-        out["constraints"] = err(e)
-    try:
-        out["target_lengths"] = [[x, y, n] for (x, y), n in build_routing_table_target_lengths(si).items()]
-    except Exception as e:
-        out["target_lengths"] = err(e)
+    d, order = describe(si, c)
+    out.update(d)
+    if c.get("copy"):
+        try:
+            out["copy"] = describe(copied(si, c["copy"]), c)[0]
+        except Exception as e:
+            out["copy"] = {"sysinfo": err(e)}
     # ---- the deprecated one-call path
     if c.get("also_get_machine"):
         try:
